@@ -122,6 +122,8 @@ def check(prop, tier, seed):
     sim_name = PROP_SIM[prop]
     sim = get_sim(sim_name)
     plan = sim.plan(prop, tier)          # list of (stratum, n_runs)
+    if core.SCALE != 1:
+        plan = [(s, max(1, int(n * core.SCALE))) for s, n in plan]
     workers = core.n_workers()
     results = []
     use_hash_groups = getattr(sim, "hash_seed_groups", None)
